@@ -86,6 +86,22 @@ def run(ctx):
                     rep("Bloch Hamiltonian at k=0 is not the real-space Majorana Hamiltonian of the cell"); continue
                 k = rng.uniform(-4, 4, size=2)
                 Hr = Hk(k)
+                if trial == 0:
+                    import variants
+                    for argname, base_arg in (("ujk", u), ("coloring", c), ("J", J), ("k", k)):
+                        if base_arg is None:
+                            continue
+                        for lab, av in variants.of_array(base_arg):
+                            keep = np.array(av).copy()
+                            args = dict(ujk=u, coloring=c, J=J, k=k); args[argname] = av
+                            try:
+                                Hv = ps.k_hamiltonian_generator(l, args["coloring"], args["ujk"], args["J"])(args["k"])
+                            except Exception as ex:
+                                rep(f"k_hamiltonian raises {type(ex).__name__}: {ex} when {argname} is passed as {lab}", representation=lab); break
+                            if not np.array_equal(Hv, Hr):
+                                rep(f"the Bloch Hamiltonian changes when the same {argname} is passed as {lab}", representation=lab); break
+                            if not variants.untouched(lab, keep, av):
+                                rep(f"k_hamiltonian modified its {argname} argument ({lab})", representation=lab); break
                 sc = max(1.0, np.abs(Hr).max())
                 if not np.allclose(Hr, Hr.conj().T, atol=1e-13 * sc, rtol=0):
                     rep("Bloch Hamiltonian is not Hermitian", k=k.tolist()); continue
